@@ -1,0 +1,16 @@
+//go:build verif
+
+// Verification hook (add-only, compiled only with -tags verif): re-exports the
+// unexported tier flattener so that /verif's correspondence harness can drive it.
+package windataplane
+
+import "github.com/projectcalico/calico/felix/dataplane/windows/hns"
+
+// VerifFlattenTiers calls flattenTiers (which may mutate the Action of rules in the last tier).
+func VerifFlattenTiers(tiers [][]*hns.ACLPolicy) []*hns.ACLPolicy { return flattenTiers(tiers) }
+
+// VerifRewritePriorities calls rewritePriorities.
+func VerifRewritePriorities(policies []*hns.ACLPolicy, limit uint16) { rewritePriorities(policies, limit) }
+
+// VerifCombinePorts calls combinePorts.
+func VerifCombinePorts(as, bs string) (string, error) { return combinePorts(as, bs) }
